@@ -207,7 +207,7 @@ def wiring(cname, L, mode="pairs"):
 
 
 def jobs(tier, seed):
-    js = []
+    js = [Job("eg-validate", "harness.egcommon:validate_eg", tier=tier)]
     for i, tc in enumerate(E.toy_curves(tier)):
         n = tc["n"]
         if n > (13 if tier == "quick" else 43):
